@@ -96,4 +96,14 @@ PLANS = {
         "components": GEN_COMPONENTS,
         "assumptions": GEN_ASSUMPTIONS,
     },
+    "C14": {
+        "level": "fault_enumeration",
+        "legs": [{"world": "entry", "quick": {"runs": 48, "budget_s": 70}, "thorough": {"runs": 1500, "budget_s": 1200}, "run_timeout": 300, "chunk": 1}],
+        "rule": "per run: one seeded valid definition (swarm or curated; random containers and declaration order); the fault-free case, EVERY single structural fault of the catalogue at EVERY applicable position, plus sampled pairs (incl. cancelling pairs) are applied; each case is passed to ui.Model and, when a model object results, to python.compile, python.compile_ekf, cpp.compile and cpp.compile_ekf on a simulated file system; verdict must equal the reference validator evaluated on the mutated definition; a refusal must not have opened a file for writing. evaluations = runs; distinct_nontrivial = runs whose case list contains >=1 fault (every run) counted by distinct schedule digest; distinct abstract states = (entry point, fault kind, outcome)",
+        "abstract_measure": "distinct (entry point, fault kind or 'pair', outcome) triples",
+        "expect_probes": ["fault:overlap_state_control", "fault:overlap_state_calibration", "fault:overlap_control_calibration", "fault:update_missing", "fault:update_extra", "fault:update_key_swapped", "fault:cal_missing", "fault:cal_extra", "fault:cal_renamed", "fault:pnoise_missing", "fault:pnoise_negative", "fault:pnoise_foreign_add", "fault:pnoise_foreign_replace", "fault:sensor_uses_control", "fault:sensor_uses_undeclared", "fault:snoise_sensor_missing", "fault:snoise_sensor_extra", "fault:snoise_reading_missing", "fault:snoise_reading_extra", "fault:snoise_reading_renamed", "probe:cancelling_pair_valid"],
+        "components": {"real": ["formak.ui.Model", "formak.common.model_validation", "formak.python.compile / compile_ekf", "formak.cpp.compile / compile_ekf (incl. argparse of sys.argv, templates)"], "stub": ["file system: formak.cpp.open shadowed by an in-memory recorder"]},
+        "assumptions": ["'refused' = any Exception subclass; SystemExit or a normal return on an invalid definition is a violation", "single faults are enumerated completely per drawn definition; pairs and definitions are sampled"],
+        "extra_coverage": {"exhaustive": False},
+    },
 }
